@@ -61,7 +61,7 @@ def requirements(tier):
     return {"grid_pairs_backward": 114, "grid_pairs_mtl": 114, "sweep_count_checked": 1000, "rows_per_sweep_checked": 1000,
             "sequential_no_batched_checked": 40, "values_equal_k1_checked": 500, "head_swept_once_checked": 300,
             "hostile_k1_succeeded": 30, "hostile_single_row_succeeded": 5, "w_several_batched_sweeps": 100, "w_k_larger_than_m": 100,
-            "w_retain_false": 200, "w_retain_true": 200, "large_pairs_backward": 36, "w_model_sized_parameter": 2, "w_more_than_64_rows_default_chunk": 4, "vmap_recorder_hits": 1, "grad_recorder_hits": 1}
+            "w_retain_false": 200, "w_retain_true": 200, "large_pairs_backward": 36, "w_model_sized_parameter": 2, "w_batched_sweep_through_python_autograd_function": 8, "w_more_than_64_rows_default_chunk": 4, "vmap_recorder_hits": 1, "grad_recorder_hits": 1}
 
 
 def info(g):
@@ -188,6 +188,8 @@ def check_backward(case, ctx):
     if vio:
         ctx.violation(vio[0], slim, vio[1])
     _witness(ctx, m, k, retain)
+    if m >= 2 and k != 1 and any(n["op"] == "pyfunc" for n in desc["nodes"]):
+        ctx.count("w_batched_sweep_through_python_autograd_function")
     ctx.evaluated(fingerprint(slim), nontrivial=m >= 2 and k is not None and 1 < k < m)
     ctx.sample({"entry": "backward", "m": m, "k": k, "retain_graph": retain, "ops": [n["op"] for n in desc["nodes"]],
                 "hook_events": {n: ev for n, ev in list(log.items())[:3]}})
@@ -312,6 +314,8 @@ def check_mtl(case, ctx):
     if vio:
         ctx.violation(vio[0], slim, vio[1])
     _witness(ctx, t, k, retain)
+    if t >= 2 and k != 1 and any(n["op"] == "pyfunc" for part in ("trunk", "nodes") for n in desc.get(part, []) if isinstance(n, dict)):
+        ctx.count("w_batched_sweep_through_python_autograd_function")
     ctx.evaluated(fingerprint(slim), nontrivial=t >= 2 and k is not None and 1 < k < t)
     ctx.sample({"entry": "mtl_backward", "tasks": t, "k": k, "retain_graph": retain,
                 "hook_events": {n: ev for n, ev in log.items() if n.startswith(("shared", "feat", "loss"))}})
